@@ -999,6 +999,14 @@ pub struct ServerPool {'''),
                             if let Ok(ast) = query_router.parse(&parse_message) {""",
          new="""                        if self.prepared_statements_enabled {
                             if let Ok(ast) = query_router.parse(&message) {"""),
+    dict(id="c05-shard-conflict-returns-early", prop="C05", file="src/query_router.rs", expect="C05-R3",
+         what="a shard conflict between reads ends the classification of the message (D48 again)",
+         old="""                            if let Err(err) =
+                                self.handle_inferred_shard(inferred_shard, &mut prev_inferred_shard)
+                            {
+                                shard_conflict.get_or_insert(err);
+                            }""", new="""                            self.handle_inferred_shard(inferred_shard, &mut prev_inferred_shard)?;
+                            let _ = &mut shard_conflict;"""),
     # ------------------------------------------------------------------ C17
     dict(id="c17-shutdown-checked-in-transaction", prop="C17", file="src/client.rs", expect="C17-R1",
          what="the transaction loop also reacts to the shutdown broadcast",
